@@ -18,9 +18,9 @@ def dotPlanModel (size : Nat) (ntt : Bool) (n k kk : Nat) : List Nat :=
         ((List.range' 0 (size - 1)).map (fun i => [23, i * (n * k), (i + 1) * (n * k)])).flatten ++
         (if ntt then [] else [15]) ++ [25])
 
-theorem gd_ckMul_ok {a b : Nat} (h : a * b < 2^64) : ckMul a b = .ok (a * b) := by unfold ckMul; rw [if_pos (by simpa [B64] using h)]
-theorem gd_ckAdd_ok {a b : Nat} (h : a + b < 2^64) : ckAdd a b = .ok (a + b) := by unfold ckAdd; rw [if_pos (by simpa [B64] using h)]
-theorem gd_ckSub_ok {a b : Nat} (h : b ≤ a) : ckSub a b = .ok (a - b) := by unfold ckSub; rw [if_pos h]
+theorem gdc_ckMul_ok {a b : Nat} (h : a * b < 2^64) : ckMul a b = .ok (a * b) := by unfold ckMul; rw [if_pos (by simpa [B64] using h)]
+theorem gdc_ckAdd_ok {a b : Nat} (h : a + b < 2^64) : ckAdd a b = .ok (a + b) := by unfold ckAdd; rw [if_pos (by simpa [B64] using h)]
+theorem gdc_ckSub_ok {a b : Nat} (h : b ≤ a) : ckSub a b = .ok (a - b) := by unfold ckSub; rw [if_pos h]
 
 theorem gd_dot_loop1 (sz p kp : Nat) : ∀ (f i : Nat) (acc : List Nat), (i + f) * p < 2^64 → (i + f) * kp + p < 2^64 → i + f < 2^64 →
     dec_dot_product_plan_loop1 sz p kp f i acc =
@@ -34,8 +34,8 @@ theorem gd_dot_loop1 (sz p kp : Nat) : ∀ (f i : Nat) (acc : List Nat), (i + f)
     have e2 : (i + 1) * p ≤ (i + (f + 1)) * p := Nat.mul_le_mul_right p (by omega)
     have e3 : i * kp ≤ (i + (f + 1)) * kp := Nat.mul_le_mul_right kp (by omega)
     rw [dec_dot_product_plan_loop1]
-    simp only [gd_ckMul_ok (show i * p < 2^64 by omega), gd_ckAdd_ok (show i + 1 < 2^64 by omega), gd_ckMul_ok (show (i + 1) * p < 2^64 by omega),
-      gd_ckMul_ok (show i * kp < 2^64 by omega), gd_ckAdd_ok (show i * kp + p < 2^64 by omega), bind, Except.bind]
+    simp only [gdc_ckMul_ok (show i * p < 2^64 by omega), gdc_ckAdd_ok (show i + 1 < 2^64 by omega), gdc_ckMul_ok (show (i + 1) * p < 2^64 by omega),
+      gdc_ckMul_ok (show i * kp < 2^64 by omega), gdc_ckAdd_ok (show i * kp + p < 2^64 by omega), bind, Except.bind]
     rw [ih (i + 1) _ (by rw [show i + 1 + f = i + (f + 1) by omega]; exact h1) (by rw [show i + 1 + f = i + (f + 1) by omega]; exact h2) (by omega)]
     simp [List.range'_succ]
 
@@ -50,7 +50,7 @@ theorem gd_dot_loop2 (sz p : Nat) : ∀ (f i : Nat) (acc : List Nat), (i + f) * 
     have e1 : i * p ≤ (i + (f + 1)) * p := Nat.mul_le_mul_right p (by omega)
     have e2 : (i + 1) * p ≤ (i + (f + 1)) * p := Nat.mul_le_mul_right p (by omega)
     rw [dec_dot_product_plan_loop2]
-    simp only [gd_ckMul_ok (show i * p < 2^64 by omega), gd_ckAdd_ok (show i + 1 < 2^64 by omega), gd_ckMul_ok (show (i + 1) * p < 2^64 by omega),
+    simp only [gdc_ckMul_ok (show i * p < 2^64 by omega), gdc_ckAdd_ok (show i + 1 < 2^64 by omega), gdc_ckMul_ok (show (i + 1) * p < 2^64 by omega),
       bind, Except.bind]
     rw [ih (i + 1) _ (by rw [show i + 1 + f = i + (f + 1) by omega]; exact h1) (by omega)]
     simp [List.range'_succ]
@@ -62,7 +62,7 @@ theorem gd_dot_product_plan_eq (ct : List Nat) (size : Nat) (ntt : Bool) (n k kk
     (hsize : 2 ≤ size) (hk : 1 ≤ k) (hct : ct.length = size * (n * k)) (hov1 : size * (n * k) < 2^64) (hov2 : size * (n * kk) + n * k < 2^64) (hsz : size < 2^64) :
     dec_dot_product_plan ct size ntt n k kk plan = .ok (plan ++ dotPlanModel size ntt n k kk) := by
   unfold dec_dot_product_plan dotPlanModel
-  have hs1 : ckSub size 1 = .ok (size - 1) := gd_ckSub_ok (by omega)
+  have hs1 : ckSub size 1 = .ok (size - 1) := gdc_ckSub_ok (by omega)
   simp only [hs1, bind, Except.bind, pure, Except.pure]
   by_cases h2 : size = 2
   · subst h2
@@ -72,14 +72,14 @@ theorem gd_dot_product_plan_eq (ct : List Nat) (size : Nat) (ntt : Bool) (n k kk
     have hnkk : n * kk ≤ size * (n * kk) := Nat.le_mul_of_pos_left _ (by omega)
     have e1 : (size - 1) * (n * k) ≤ size * (n * k) := Nat.mul_le_mul_right _ (by omega)
     have e2 : (size - 1) * (n * kk) ≤ size * (n * kk) := Nat.mul_le_mul_right _ (by omega)
-    have hm1 : ckMul n k = .ok (n * k) := gd_ckMul_ok (by omega)
-    have hm2 : ckMul n kk = .ok (n * kk) := gd_ckMul_ok (by omega)
+    have hm1 : ckMul n k = .ok (n * k) := gdc_ckMul_ok (by omega)
+    have hm2 : ckMul n kk = .ok (n * kk) := gdc_ckMul_ok (by omega)
     have hsl : GenR.slice ct (n * k) ct.length = .ok ((ct.drop (n * k)).take (ct.length - n * k)) := by
       unfold GenR.slice; rw [if_pos ⟨by omega, le_refl _⟩]
     have hm3 : ckMul (size - 1) n = .ok ((size - 1) * n) := by
-      apply gd_ckMul_ok
+      apply gdc_ckMul_ok
       have : (size - 1) * n ≤ (size - 1) * (n * k) := Nat.mul_le_mul_left _ (Nat.le_mul_of_pos_right _ hk); omega
-    have hm4 : ckMul ((size - 1) * n) k = .ok ((size - 1) * n * k) := gd_ckMul_ok (by rw [Nat.mul_assoc]; omega)
+    have hm4 : ckMul ((size - 1) * n) k = .ok ((size - 1) * n * k) := gdc_ckMul_ok (by rw [Nat.mul_assoc]; omega)
     have hlen : ((ct.drop (n * k)).take (ct.length - n * k)).length = (size - 1) * n * k := by
       rw [List.length_take, List.length_drop, Nat.min_self, hct, Nat.mul_assoc, Nat.sub_mul, Nat.one_mul]
     simp only [hm1, hm2, hsl, hm3, hm4, hlen, if_true]
